@@ -57,7 +57,7 @@ var checks = map[string]*Check{
 			{World: "C04b/faulty", Weight: 2},
 			{World: "C04b", Race: true, Weight: 1},
 		},
-		Probes:      []string{"id_listed_more_than_once", "concurrent_pollers", "window_relist", "relisted_every_time", "poller_aborted", "half_closed_poller"},
+		Probes:      []string{"id_listed_more_than_once", "concurrent_pollers", "window_relist", "relisted_every_time", "poller_aborted", "half_closed_poller", "backend_reset_after_executing_post_on_reused_connection"},
 		Rule:        "(a) real agent vs scripted fake proxy: pending-list replies repeat/permute/overlap 2..12 (thorough ..60) request IDs, plus a dedup-window leg re-listing an ID after up to 998 other IDs; counting backend; fetch/upload 5xx in the faulty leg. (b) real proxy with 2..5 concurrent harness pollers (some abandoning the list call) and 2..10 (..40) clients; every ID must be reported in exactly one list reply.",
 		Assumptions: commonAssumptions,
 		RealStub:    coreRealStub,
@@ -78,7 +78,7 @@ var checks = map[string]*Check{
 	},
 	"C20": {
 		Legs:        []Leg{{World: "C20", Weight: 1}},
-		Probes:      []string{"health_gated_start", "backend_unhealthy_at_startup", "unhealthy_exit_expected", "graceful_shutdown", "prompt_shutdown", "signal_during_list_call", "response_completed_during_grace", "signal_while_health_gated", "signal_while_list_calls_fail"},
+		Probes:      []string{"health_gated_start", "backend_unhealthy_at_startup", "unhealthy_exit_expected", "graceful_shutdown", "prompt_shutdown", "signal_during_list_call", "response_completed_during_grace", "signal_while_health_gated", "signal_while_list_calls_fail", "second_signal_during_grace_period"},
 		Rule:        "Real agent main() with documented flags vs fake proxy and a backend with a scripted health endpoint: start-up failures / late listener, 0..24 periodic results with 0..80% failures, interval 1/2/5 s, threshold 1..4, health checks on/off; SIGINT or SIGTERM at 0..31 s after the first poll, grace 0/2/10/30 s, backend latency 0..20 s. Reference: consecutive-failure counter with reset; exit instants compared in simulated time (zero network latency).",
 		Assumptions: commonAssumptions,
 		RealStub:    coreRealStub,
@@ -96,7 +96,7 @@ var checks = map[string]*Check{
 			{World: "C06/nofault", Weight: 1},
 			{World: "C06", Race: true, Weight: 2},
 		},
-		Probes:      []string{"early_5xx_while_body_streaming", "retry_attempt_seen"},
+		Probes:      []string{"early_5xx_while_body_streaming", "retry_attempt_seen", "backend_answers_late"},
 		Rule:        "Real agent (response forwarder + http.Transport) vs a byte-level fake proxy: per upload attempt a scripted fault {5xx, reset, close, none} at a byte offset of the raw request stream (header block, body offset 0/1/around 4096/anywhere/after the terminating chunk), 5xx answered while the body is still streaming with or without draining; response sizes placing the serialised upload around the 4096-byte replay buffer, tiny and large; SimNet buffers 512 B..64 KiB park the previous attempt's body writer. Oracle: every acknowledged complete attempt parses to exactly the backend's response; at most 3 attempts; no forwarder goroutine blocked at the end.",
 		Assumptions: commonAssumptions,
 		RealStub:    coreRealStub,
@@ -117,14 +117,14 @@ var checks = map[string]*Check{
 	},
 	"C11": {
 		Legs:        []Leg{{World: "C11", Weight: 3}, {World: "C11", Race: true, Weight: 1}},
-		Probes:      []string{"both_directions", "idle_poll_408", "data_post_more_than_10", "poll_returned_more_than_10", "injection_applied", "concurrent_sessions", "backend_closed_after_last_message", "session_opened_after_another_closed"},
+		Probes:      []string{"both_directions", "idle_poll_408", "data_post_more_than_10", "poll_returned_more_than_10", "injection_applied", "concurrent_sessions", "backend_closed_after_last_message", "session_opened_after_another_closed", "close_behind_backlog"},
 		Rule:        "Harness shim client (protocol of the injected script: open, then one data post and one poll outstanding at a time, close) -> real proxy -> real agent (shim handlers, relay goroutines) -> real gorilla websocket backend. one or two concurrent sessions; 0..30 (thorough ..120) messages per direction and session: ASCII/UTF-8 text, arbitrary binary, JSON documents; sizes 0..40 KB (thorough ..1 MiB); batches of 1..25 messages per data post; pauses up to 21 s (idle polls end in 408); protocol version 0/1/absent; header injection on in a third of the runs. Two FIFO reference queues compared at quiescence.",
 		Assumptions: commonAssumptions,
 		RealStub:    coreRealStub,
 	},
 	"C12": {
 		Legs:        []Leg{{World: "C12", Weight: 3}, {World: "C12", Race: true, Weight: 2}},
-		Probes:      []string{"concurrent_calls", "double_close_same_instant", "data_racing_close", "backend_closed_first", "odd_message_types", "backend_ignores_closing_handshake", "overlapping_opens"},
+		Probes:      []string{"concurrent_calls", "double_close_same_instant", "data_racing_close", "backend_closed_first", "odd_message_types", "backend_ignores_closing_handshake", "overlapping_opens", "stalled_backend_on_other_session", "data_after_backend_closed"},
 		Rule:        "1..2 shim sessions and 2..10 data/poll/close calls with valid, unknown, malformed and empty arguments, most of them issued at the same simulated instant so that the scheduler interleaves them at the yield points inside the shim handlers and the connection (data vs close, close vs close, poll vs backend close); in a third of the runs the backend sends 0..14 messages and closes first. Every call must be answered with 200/400/408/500; calls after an answered close must get 400; crash monitor + race-detector leg.",
 		Assumptions: commonAssumptions,
 		RealStub:    coreRealStub,
@@ -138,7 +138,7 @@ var checks = map[string]*Check{
 	},
 	"C10": {
 		Legs:        []Leg{{World: "C10", Weight: 3}, {World: "C10/lru", Weight: 1}, {World: "C10", Race: true, Weight: 2}, {World: "C10/lru", Race: true, Weight: 1}},
-		Probes:      []string{"session_issued", "cookies_restored", "concurrent_sessions", "lru_eviction", "late_response_after_eviction", "interim_1xx", "public_suffix_domain_cookie", "session_cookie_presented_twice"},
+		Probes:      []string{"session_issued", "cookies_restored", "concurrent_sessions", "lru_eviction", "late_response_after_eviction", "interim_1xx", "public_suffix_domain_cookie", "session_cookie_presented_twice", "follow_up_before_body_is_read", "concurrent_requests_in_uncached_session"},
 		Rule:        "1..4 (LRU leg: 3..6 with a window of 2) modelled browsers send 2..8 scripted requests over three hosts and four paths through real proxy and agent (-session-cookie-name) to a backend emitting generated Set-Cookie operations (set, overwrite, Path/Domain scoped, Max-Age, Secure/HttpOnly, delete, expired), with simulated gaps across expiry instants, then a burst of concurrent requests in all sessions plus two in one session. Reference: one independent net/http/cookiejar per modelled session on the same clock; values carry the session's tag so any foreign value is a leak.",
 		Assumptions: commonAssumptions,
 		RealStub:    coreRealStub,
@@ -159,7 +159,7 @@ var checks = map[string]*Check{
 	},
 	"C15": {
 		Legs:        []Leg{{World: "C15", Weight: 3}, {World: "C15", Race: true, Weight: 1}},
-		Probes:      []string{"both_directions_at_once", "concurrent_connections", "stream_larger_than_64k", "passthrough_request", "server_speaks_first", "slow_reader_with_bulk_data"},
+		Probes:      []string{"both_directions_at_once", "concurrent_connections", "stream_larger_than_64k", "passthrough_request", "server_speaks_first", "slow_reader_with_bulk_data", "orderly_end_of_both_directions"},
 		Rule:        "TCP clients -> real tcp-bridge-frontend main() -> websocket over SimNet through the real h2c-wrapped tcp-bridge-backend main() -> harness TCP server. 1..4 (thorough ..32) connections, per direction 0..6 writes of 0 B..70 KB (all 256 byte values), reader buffers 1 B..100 KB, both directions at once, SimNet buffers 1..64 KiB and segmentation up to 70%; plus plain HTTP POSTs to the bridge backend for the pass-through clause.",
 		Assumptions: commonAssumptions,
 		RealStub: map[string]string{
@@ -213,7 +213,7 @@ var checks = map[string]*Check{
 	},
 	"C19": {
 		Legs:        []Leg{{World: "C19", Weight: 2}, {World: "C19/faulty", Weight: 2}, {World: "C19", Race: true, Weight: 1}},
-		Probes:      []string{"response_relayed", "timeout_504", "request_across_part_limit", "response_across_part_limit", "both_respond_writes_fail", "concurrent_clients", "request_exact_multiple_of_part_size", "response_exact_multiple_of_part_size", "repeated_get_not_replayed"},
+		Probes:      []string{"response_relayed", "timeout_504", "request_across_part_limit", "response_across_part_limit", "both_respond_writes_fail", "concurrent_clients", "request_exact_multiple_of_part_size", "response_exact_multiple_of_part_size", "repeated_get_not_replayed", "cleanup_cron_between_post_and_pickup"},
 		Rule:        "1..4 concurrent client requests (GET/POST, unique tokens, some sharing user and URL) and a scripted authorised agent (list, fetch, respond after 0..29 s or never) through the App Engine proxy on the stub platform; request/response sizes 0 B .. 2,000,001 B around the 1,000,000-byte inline and part limits; memcache eviction 0/30/100%; faulty leg fails the n-th datastore Put/Get/RunQuery or memcache Set of a kind, including both writes of one respond call. Every handler call must return within 31 s of simulated time.",
 		Assumptions: commonAssumptions,
 		RealStub: map[string]string{
